@@ -331,6 +331,38 @@ Definition validate (i : iface) (t : target) : verdict :=
 
 Definition check_validate (i : iface) (t : target) (obs : verdict) : bool := verdict_eqb (validate i t) obs.
 
+(* The life cycle of an experimental sampler object (Conjugate / ConjugateApprox): `sampler.target = value` may be executed in
+   any state -- not yet initialised, initialised, after step / warmup / sample, with or without a previous target (HybridGibbs
+   re-assigns the target of every block sampler in every sweep).  The setter is
+        self._target = value ; self._set_conjugatepair() ; self.validate_target()
+   so (1) the verdict does not depend on the state, and (2) the assignment happens BEFORE the validation: a refused target stays
+   in the object (keeps_refused = true, the tree today); fixes/C10_retarget_restore.diff restores the previous target
+   (keeps_refused = false).  The harness probes which variant the tree has. *)
+Record exp_sampler := { es_initialized : bool; es_target : option target }.
+
+Definition is_reject (v : verdict) : bool := match v with Reject _ => true | Accept _ => false end.
+
+Definition set_target (keeps_refused : bool) (i : iface) (smp : exp_sampler) (t : target) : exp_sampler * verdict :=
+  let v := validate i t in
+  ({| es_initialized := es_initialized smp;
+      es_target := if is_reject v && negb keeps_refused then es_target smp else Some t |}, v).
+
+(* a history of assignments: the verdicts, and the final object *)
+Fixpoint assign_all (keeps_refused : bool) (i : iface) (smp : exp_sampler) (ts : list target) : exp_sampler * list verdict :=
+  match ts with
+  | [] => (smp, [])
+  | t :: r => let '(smp1, v) := set_target keeps_refused i smp t in
+              let '(smp2, vs) := assign_all keeps_refused i smp1 r in (smp2, v :: vs)
+  end.
+
+(* observed: the verdict of an assignment made in a given state, and whether the object afterwards holds the new target *)
+Definition check_retarget (keeps_refused : bool) (i : iface) (initialized had_target : bool) (prev t : target)
+                          (obs : verdict) (obs_holds_new : bool) : bool :=
+  let smp := {| es_initialized := initialized; es_target := if had_target then Some prev else None |} in
+  let '(smp1, v) := set_target keeps_refused i smp t in
+  verdict_eqb v obs
+  && Bool.eqb obs_holds_new (if is_reject v && negb keeps_refused then false else true).
+
 (* probe decisions observed by calling the two helper functions directly *)
 Definition probe_res_eqb (a b : probe_res) : bool :=
   match a, b with PTrue, PTrue | PFalse, PFalse | PTypeError, PTypeError => true | _, _ => false end.
